@@ -1,5 +1,209 @@
 import FcpptModel.Prelude.Proto
-/-! Driver for C18 — placeholder until the property's model is built. -/
+import FcpptModel.Spec.C18
+/-!
+Driver for C18.  Operations (one per line; `harness/c18.cpp` implements the same protocol on the real code):
+
+* `ir  ty b e`        — `make_int_range(b, e)` over `ty ∈ {i8,u8,i16,u16,i32,u32,i64,u64,si8,su8,si32,su32}` (`s…` = strong typedef):
+                        elements (cap 300, else `overrun`), `size()`, `range::size` (plain signed types)
+* `irub ty b e`       — only `size()`, really called even where it is undefined (model: the fault's name)
+* `irc ty n`          — `make_int_range_count(n)`
+* `irs ty b`          — digest of the `ir ty b e` lines for every `e` of an 8- or 16-bit `ty`
+* `er n w s e` / `ers n w s` / `era n w` — `make_range_start_end` / `make_range_start` / `make_range` of an enum with
+                        `n` enumerators and a `w`-bit size_type
+* `cyc L f s start k` — cyclic iterator over the sub-range `[f, s)` of a vector of length `L`, at index `start`, advanced by `k`
+* `cycw kind L f s start ops…` — walk: `+ - p m` (pre- and post-increment, pre- and post-decrement), `a<k>` (`+=`), `s<k>` (`-=`), `i<k>` (`operator[]`)
+* `sp ty x y d`       — `make_spiral_range(pos(x,y), d)` (cap 5000)
+* `nb ty x y`         — `neumann_neighbors`, `moore_neighbors`
+* `itr kind L i j` / `adr kind L` — `iterator::make_range(begin+i, begin+j)` / `adapt_range(container)`; container element k is 3k+1
+* `mirc n`            — `math::int_range_count<n>`
+-/
 namespace Fcppt.C18.Drv
-def main : IO Unit := Fcppt.Proto.run (fun _ => "not-built")
+open Fcppt.Proto Fcppt.C18
+
+def cap : Nat := 300
+def spiralCap : Nat := 5000
+
+def tyOf : String → Option (IntTy × Bool)     -- (type, is strong typedef)
+  | "i8" => some (⟨true, 8⟩, false) | "u8" => some (⟨false, 8⟩, false)
+  | "i16" => some (⟨true, 16⟩, false) | "u16" => some (⟨false, 16⟩, false)
+  | "i32" => some (⟨true, 32⟩, false) | "u32" => some (⟨false, 32⟩, false)
+  | "i64" => some (⟨true, 64⟩, false) | "u64" => some (⟨false, 64⟩, false)
+  | "si8" => some (⟨true, 8⟩, true) | "su8" => some (⟨false, 8⟩, true)
+  | "si32" => some (⟨true, 32⟩, true) | "su32" => some (⟨false, 32⟩, true)
+  | _ => none
+
+def showInts (l : List Int) : String := if l.isEmpty then "-" else intList l
+
+def showElems : M (List Int) → String
+  | .ok l => s!"n={l.length} e={showInts l}"
+  | .error .fuel => "overrun"
+  | .error f => f.name
+
+def rangeLine (t : IntTy) (strong : Bool) (r : IntRange) : String :=
+  let el := r.elems t (cap + 1)
+  let sz := match r.size t with
+    | .ok v => toString v
+    | .error _ => "ub"
+  let rs := match el with
+    | .ok l =>
+      if t.signed && !strong then
+        match rangeSize t l.length with
+        | .ok v => toString v
+        | .error _ => "ub"
+      else "-"
+    | .error _ => "-"
+  s!"{showElems el} size={sz} rs={rs}"
+
+def irLine (t : IntTy) (strong : Bool) (b e : Int) : String := rangeLine t strong (makeIntRange b e)
+
+def irsDigest (t : IntTy) (strong : Bool) (b : Int) : String :=
+  let n := (t.hi - t.lo + 1).toNat
+  let h := (List.range n).foldl (fun h (i : Nat) => fnv h (irLine t strong b (t.lo + (i : Int)))) fnvInit
+  "D " ++ hex64 h
+
+def enumLine (w : Nat) (r : EnumRange) : String :=
+  s!"{showElems (r.elems w (cap + 1))} size={r.size w}"
+
+def val (k : Int) : Int := 3 * k + 1
+
+def cycLine (f s start k : Int) : String :=
+  let c : Cyc := ⟨start, f, s⟩
+  match c.advance k with
+  | .error e => e.name
+  | .ok a =>
+    let st := if k ≥ 0 then iter Cyc.increment k.toNat c else iter Cyc.decrement (-k).toNat c
+    let alt := match c.advance (-(-k)) with
+      | .ok a' => a' == a
+      | .error _ => false
+    s!"adv={a.it} val={val a.it} alt={b01 alt} steps={st.it} inb={b01 (decide (f ≤ a.it ∧ a.it < s ∧ f ≤ st.it ∧ st.it < s))} dist={c.distanceTo a}"
+
+def cycWalk (randomAccess : Bool) : List String → Cyc → List String → Option (List String)
+  | [], _, acc => some acc.reverse
+  | t :: ts, c, acc =>
+    let arg := (t.drop 1).toInt?
+    match t.get 0, arg with
+    | '+', none => let c' := c.increment; cycWalk randomAccess ts c' (toString c'.it :: acc)
+    | '-', none => let c' := c.decrement; cycWalk randomAccess ts c' (toString c'.it :: acc)
+    -- post-increment returns the old iterator: print its position, then the new one
+    | 'p', none => let c' := c.increment; cycWalk randomAccess ts c' (s!"{c.it}>{c'.it}" :: acc)
+    | 'm', none => let c' := c.decrement; cycWalk randomAccess ts c' (s!"{c.it}>{c'.it}" :: acc)
+    | 'a', some k =>
+      if !randomAccess then none else
+      match c.advance k with
+      | .ok c' => cycWalk randomAccess ts c' (toString c'.it :: acc)
+      | .error _ => none
+    | 's', some k =>
+      if !randomAccess then none else
+      match c.advance (-k) with            -- operator-=(d) = *this += -d
+      | .ok c' => cycWalk randomAccess ts c' (toString c'.it :: acc)
+      | .error _ => none
+    | 'i', some k =>
+      if !randomAccess then none else
+      match c.advance k with               -- operator[](d) = *(*this + d)
+      | .ok c' => cycWalk randomAccess ts c (s!"v{val c'.it}" :: acc)
+      | .error _ => none
+    | _, _ => none
+
+def showPos (p : Pos) : String := s!"{p.x}:{p.y}"
+def showPosList (l : List Pos) : String := if l.isEmpty then "-" else ",".intercalate (l.map showPos)
+
+def spLine (x y d : Int) : String :=
+  match spiralRange ⟨x, y⟩ d (spiralCap + 1) with
+  | .ok l => s!"n={l.length} p={showPosList l}"
+  | .error .fuel => "overrun"
+  | .error f => f.name
+
+def nbLine (t : IntTy) (x y : Int) : String :=
+  match neumann t ⟨x, y⟩, moore t ⟨x, y⟩ with
+  | .ok a, .ok b => s!"neu={showPosList a} moo={showPosList b}"
+  | .error f, _ => f.name
+  | _, .error f => f.name
+
+def container (L : Nat) : List Int := (List.range L).map (fun (k : Nat) => val (k : Int))
+
+def itrLine (L i j : Nat) : String :=
+  let r := iterMakeRange i j
+  s!"{showElems (r.elems (container L) (cap + 1))} size={r.size}"
+
+def adrLine (L : Nat) : String :=
+  let c := container L
+  let r := adaptRange c
+  s!"{showElems (r.elems c (cap + 1))} size={r.size}"
+
+def int? (s : String) : Option Int := s.toInt?
+
+def handle (toks : List String) : String :=
+  match toks with
+  | ["ir", ty, b, e] =>
+    match tyOf ty, int? b, int? e with
+    | some (t, st), some b, some e => if t.InRange b ∧ t.InRange e then irLine t st b e else "bad-op"
+    | _, _, _ => "bad-op"
+  | ["irub", ty, b, e] =>
+    match tyOf ty, int? b, int? e with
+    | some (t, _), some b, some e =>
+      if t.InRange b ∧ t.InRange e then
+        match (makeIntRange b e).size t with
+        | .ok v => s!"size={v}"
+        | .error f => f.name
+      else "bad-op"
+    | _, _, _ => "bad-op"
+  | ["irc", ty, n] =>
+    match tyOf ty, int? n with
+    | some (t, st), some n => if t.InRange n then rangeLine t st (makeIntRangeCount n) else "bad-op"
+    | _, _ => "bad-op"
+  | ["irs", ty, b] =>
+    match tyOf ty, int? b with
+    | some (t, st), some b => if (t.bits = 8 ∨ t.bits = 16) ∧ t.InRange b then irsDigest t st b else "bad-op"
+    | _, _ => "bad-op"
+  | ["er", n, w, s, e] =>
+    match n.toNat?, w.toNat?, s.toNat?, e.toNat? with
+    | some n, some w, some s, some e =>
+      if s < n ∧ e < n ∧ n ≤ 2 ^ w then enumLine w (makeRangeStartEnd w s e) else "bad-op"
+    | _, _, _, _ => "bad-op"
+  | ["ers", n, w, s] =>
+    match n.toNat?, w.toNat?, s.toNat? with
+    | some n, some w, some s => if s < n ∧ n ≤ 2 ^ w then enumLine w (makeRangeStart w n s) else "bad-op"
+    | _, _, _ => "bad-op"
+  | ["era", n, w] =>
+    match n.toNat?, w.toNat? with
+    | some n, some w => if 0 < n ∧ n ≤ 2 ^ w then enumLine w (makeRange w n) else "bad-op"
+    | _, _ => "bad-op"
+  | ["cyc", l, f, s, start, k] =>
+    match l.toNat?, f.toNat?, s.toNat?, start.toNat?, int? k with
+    | some l, some f, some s, some start, some k =>
+      if f < s ∧ s ≤ l ∧ f ≤ start ∧ start < s then cycLine f s start k else "bad-op"
+    | _, _, _, _, _ => "bad-op"
+  | "cycw" :: kind :: l :: f :: s :: start :: ops =>
+    match l.toNat?, f.toNat?, s.toNat?, start.toNat? with
+    | some l, some f, some s, some start =>
+      if (kind = "v" ∨ kind = "l") ∧ f < s ∧ s ≤ l ∧ f ≤ start ∧ start < s then
+        match cycWalk (kind == "v") ops ⟨start, f, s⟩ [] with
+        | some tr => if tr.isEmpty then "-" else ",".intercalate tr
+        | none => "bad-op"
+      else "bad-op"
+    | _, _, _, _ => "bad-op"
+  | ["sp", ty, x, y, d] =>
+    match int? x, int? y, int? d with
+    | some x, some y, some d => if ty = "i32" ∨ ty = "i64" then spLine x y d else "bad-op"
+    | _, _, _ => "bad-op"
+  | ["nb", ty, x, y] =>
+    match tyOf ty, int? x, int? y with
+    | some (t, false), some x, some y => if 32 ≤ t.bits ∧ t.InRange x ∧ t.InRange y then nbLine t x y else "bad-op"
+    | _, _, _ => "bad-op"
+  | ["itr", kind, l, i, j] =>
+    match l.toNat?, i.toNat?, j.toNat? with
+    | some l, some i, some j => if (kind = "v" ∨ kind = "l") ∧ i ≤ j ∧ j ≤ l then itrLine l i j else "bad-op"
+    | _, _, _ => "bad-op"
+  | ["adr", kind, l] =>
+    match l.toNat? with
+    | some l => if kind = "v" ∨ kind = "l" then adrLine l else "bad-op"
+    | _ => "bad-op"
+  | ["mirc", n] =>
+    match n.toNat? with
+    | some n => if n ≤ 16 then s!"e={if n = 0 then "-" else natList (mathIntRangeCount n)}" else "bad-op"
+    | _ => "bad-op"
+  | _ => "bad-op"
+
+def main : IO Unit := Proto.run handle
+
 end Fcppt.C18.Drv
